@@ -147,6 +147,7 @@ def _case(draw, tier):
         "zero": [draw(st.integers(2, 5)), coef()],
         "chain": [draw(st.integers(2, 5)), coef()] if n_inf else None,
         "loop": [draw(st.integers(5, 11)), coef()] if (n_inf and draw(st.integers(0, 3)) == 0) else None,
+        "fwd": [draw(st.integers(2, 5)), coef()] if (n_inf and draw(st.booleans())) else None,
     }
     n_ops = draw(st.integers(2, 12 if tier == "quick" else 20))
     ops = []
@@ -208,6 +209,7 @@ class Model:
         self.n_inf = case["n_inf"]
         self.zero = zero
         self.zspec, self.cspec, self.lspec = case["zero"], case["chain"], case["loop"]
+        self.fspec = case.get("fwd")
         self.memo = {}
 
     @staticmethod
@@ -222,9 +224,24 @@ class Model:
             return "loop"
         if self._hit(self.zspec, idx):
             return "zero"
-        if self.n_inf and idx[len(self.shape)] >= 1 and self._hit(self.cspec, idx):
-            return "chain"
+        if self.n_inf:
+            k = len(self.shape)
+            # forward element: reads the next order of the same series (bounded at order 3)
+            if self.fspec is not None and idx[k] < 3 and self._hit(self.fspec, idx):
+                return "fwd"
+            # chain element: reads the previous order (never a forward element: no cycles)
+            if idx[k] >= 1 and self._hit(self.cspec, idx) and self.kind(self.prev(idx)) != "fwd":
+                return "chain"
         return "plain"
+
+    def dep(self, idx):
+        """The single element the eval of idx reads from the series (None for leaves)."""
+        kd = self.kind(idx)
+        if kd == "chain":
+            return self.prev(idx)
+        if kd == "fwd":
+            return self.partner(idx)
+        return None
 
     def prev(self, idx):
         k = len(self.shape)
@@ -242,24 +259,20 @@ class Model:
     def in_loop(self, idx):
         """Does evaluating idx run into the self-referential pair?"""
         cur = idx
-        while True:
+        while cur is not None:
             if self.back_is_loop(cur) or self.kind(cur) == "loop":
                 return True
-            if self.kind(cur) == "chain":
-                cur = self.prev(cur)
-                continue
-            return False
+            cur = self.dep(cur)
+        return False
 
     def closure(self, idx):
         """Indices whose evaluation is legitimately triggered by requesting idx."""
         res = set()
         cur = idx
-        while True:
+        while cur is not None:
             res.add(cur)
-            if self.kind(cur) == "chain":
-                cur = self.prev(cur)
-                continue
-            return res
+            cur = self.dep(cur)
+        return res
 
     def code(self, idx):
         return 1000 + sum(int(i) * 11**k for k, i in enumerate(idx))
@@ -268,8 +281,8 @@ class Model:
         kd = self.kind(idx)
         if kd == "zero":
             return self.zero
-        if kd == "chain":
-            p = self.value(self.prev(idx))
+        if kd in ("chain", "fwd"):
+            p = self.value(self.dep(idx))
             return self.code(idx) + (0 if p is self.zero else p)
         return self.code(idx)
 
@@ -323,9 +336,9 @@ def check_case(case, enforce_all=False):
             return series[model.partner(idx)]
         if kd == "zero":
             val = zero
-        elif kd == "chain":
+        elif kd in ("chain", "fwd"):
             # use the value actually read from the series so that a wrong cached value propagates
-            p = series[model.prev(idx)]
+            p = series[model.dep(idx)]
             val = model.code(idx) + (0 if p is zero else p)
         else:
             val = model.code(idx)
